@@ -53,3 +53,58 @@ def judge(res, rows, prop, what):
     res.oblige("correspondence(extracted model): Encode.process = instruction::process on %d %s cases" % (len(rows), what),
                not mism, "first of %d mismatches: %s impl=%s model=%s" % ((len(mism),) + mism[0]) if mism else "")
     return nfail
+
+
+def standard_run(res, prop, cases, keep, what, rule, exhaustive_note, assume):
+    """common skeleton of the instruction-level checks C01/C03/C04"""
+    import json
+    from . import gen, encgen
+    vh = C.build_harness("debug")
+    try:
+        changed = gen.gen_all(vh)
+        res.oblige("tie A: Gen/OpTable.v, Gen/Devices.v regenerated from /repo", True, "rewritten: %s" % changed)
+    except gen.GenError as e:
+        res.oblige("tie A: Gen/*.v regenerated from /repo", False, str(e))
+    pr = C.check_props(prop)
+    for n, ok, note in pr["obligations"]:
+        res.oblige("theorem " + n, ok, note)
+    if pr.get("broken") and not pr["obligations"]:
+        res.oblige("coq build", False, pr["broken"])
+    exe = C.build_model()
+    rows = run_cases(vh, exe, cases)
+    rows = [r for r in rows if keep(r)]
+    judge(res, rows, prop, what)
+    dist = {}
+    for r in rows:
+        t = encgen.tag(r[0]) + ("/legal" if r[3] != "NONE" else "/illegal")
+        dist[t] = dist.get(t, 0) + 1
+    res.extra["distribution"] = dist
+    res.extra["exhaustive"] = True
+    res.extra["exhaustive_note"] = exhaustive_note
+    res.rule = rule
+    res.samples = [dict(case=r[0], implementation=r[1], model=r[2], isa_spec=r[3], decoded=r[4]) for r in rows[:2] + rows[-2:]]
+    res.assume = assume
+    return rows
+
+
+def replay(prop, path):
+    import json
+    r = json.load(open(path))
+    i = r.get("input")
+    if not i:
+        print("replay: broken obligation %r - re-run ./check %s" % (r.get("obligation"), prop))
+        return 1
+    vh = C.build_harness("debug")
+    exe = C.build_model()
+    rows = run_cases(vh, exe, [i["case"]])
+    cse, impl, model, spec, dec = rows[0]
+    bad = (impl != "ERR") if spec == "NONE" else (impl != spec)
+    if bad:
+        print("VIOLATION property=%s replay=%s" % (prop, path))
+        return 1
+    print("replay: property now holds on this input")
+    return 0
+
+
+def match_known(f, entry):
+    return entry.get("class") is not None and f.get("cls") == entry.get("class")
